@@ -103,7 +103,11 @@ func locateDec(v reflect.Value, tag string, path string) (key, desc string) {
 	return
 }
 
-func c04Oracle(c ngapCase) ev.Verdict {
+func c04Oracle(c ngapCase) ev.Verdict { return c04OracleF(c, false) }
+
+// c04OracleF: frag=true is the fragmented domain (some length determinant >= 16K, X.691 10.9.3.8):
+// only values that have such a length are evaluated there, keyed "frag:".
+func c04OracleF(c ngapCase, frag bool) ev.Verdict {
 	v := ev.Verdict{Classes: []string{c.Entry}}
 	_, tag := c.typeAndTag()
 	val := c.value()
@@ -114,10 +118,21 @@ func c04Oracle(c ngapCase) ev.Verdict {
 		v.Classes = append(v.Classes, "skipped:reference-refuses")
 		return v
 	}
-	if w.MaxLen >= 16384 {
+	if !frag && w.MaxLen >= 16384 {
 		v.Skip = true
 		v.Classes = append(v.Classes, "skipped:length>=16K")
 		return v
+	}
+	if frag {
+		if w.MaxLen < 16384 {
+			v.Skip = true
+			return v
+		}
+		v.NT = true
+		v.Classes = append(v.Classes, fmt.Sprintf("maxlen/16K=%d", w.MaxLen/16384))
+		if w.MaxLen%16384 == 0 {
+			v.Classes = append(v.Classes, "exact-multiple-of-16K")
+		}
 	}
 	if w.OptBits > 0 && w.Aligns > 0 && w.Unaligned > 0 {
 		v.NT = true
@@ -141,6 +156,9 @@ func c04Oracle(c ngapCase) ev.Verdict {
 	}
 	fail := func(stage string, detail string) ev.Verdict {
 		key, desc := locateDec(reflect.ValueOf(val), tag, c.Entry)
+		if frag {
+			key, desc = "frag:dec:"+stage, ""
+		}
 		if key == "" {
 			key = "dec:whole-value-only:" + stage
 			desc = detail
@@ -199,6 +217,14 @@ func c04Oracle(c ngapCase) ev.Verdict {
 		}
 	}
 	return v
+}
+
+// TestC04_Fragment: values with a length determinant of 16K or more. The canonical encoding
+// (fragments of 64K/48K/32K/16K items, then the rest, a zero length after an exact multiple)
+// must be accepted, decoded to the value and re-encoded to the same bytes.
+func TestC04_Fragment(t *testing.T) {
+	r := ev.New(t, "C04", "TestC04_Fragment")
+	ev.Run(t, r, func(rt *rapid.T) ngapCase { return genNgapCase(rt, true) }, func(c ngapCase) ev.Verdict { return c04OracleF(c, true) })
 }
 
 func TestC04_RoundTrip(t *testing.T) {
